@@ -67,7 +67,8 @@ class OpAdd(Op):
         target = self.path.parts[-1]
         if isinstance(parent, MutableSequence):
             if obj is UNDEFINED:
-                if target == "-":
+                # An index equal to the length of the array appends, like "-".
+                if target == "-" or target == len(parent):
                     parent.append(self.value)
                 else:
                     raise JSONPatchError("index out of range")
